@@ -69,6 +69,9 @@ type lpFunc struct {
 	mutated  []*types.Var
 	text     string
 	nret     int
+	errRes   bool       // ext: the last Go result is `error` (a non-nil error is `Outcome.err`)
+	exts     []lpExtern // ext: untranslated callees taken as parameters
+	errMut   bool       // ext: an error return may follow a write of the receiver
 }
 
 type lpGen struct {
@@ -81,6 +84,7 @@ type lpGen struct {
 	tableDefs []string
 	fuels     []string
 	bufSize   int64
+	ext       *lpExt // option / TLV parser extension (loops_opts.go); nil for Gen/Loops.lean
 }
 
 type lpTr struct {
@@ -95,12 +99,13 @@ type lpTr struct {
 	ntmp  int
 	ncond int
 	cache map[ast.Node][]string // loop statement → its (unindented) call lines: a loop reached twice (duplicated continuation) is one function
-	// hooks of translators built on this one (loops_dns.go); nil for the functions of Gen/Loops.lean
-	extTy          func(ty types.Type) string                     // more Go types
-	extExpr        func(e ast.Expr, b *lpBinds) (string, bool)    // more expression forms, asked first
-	extRoot        func(e ast.Expr) *types.Var                    // more assignment-target shapes
-	extCond        func(e ast.Expr, b *lpBinds) (string, bool)    // more condition forms, asked first
-	extCallAssigns func(c *ast.CallExpr, res map[*types.Var]bool) // variables a call writes (in/out arguments)
+	// hooks of loops_dns.go (nil for the functions of Gen/Loops.lean and Gen/LoopsOpts.lean)
+	dnsTy          func(ty types.Type) string                     // more Go types
+	dnsExpr        func(e ast.Expr, b *lpBinds) (string, bool)    // more expression forms, asked first
+	dnsRoot        func(e ast.Expr) *types.Var                    // more assignment-target shapes
+	dnsCond        func(e ast.Expr, b *lpBinds) (string, bool)    // more condition forms, asked first
+	dnsCallAssigns func(c *ast.CallExpr, res map[*types.Var]bool) // variables a call writes (in/out arguments)
+	exts           []lpExtern                                     // ext (loops_opts.go): untranslated callees taken as parameters
 }
 
 func lpRefuse(fs *token.FileSet, n ast.Node, format string, a ...interface{}) {
@@ -149,8 +154,8 @@ func lpIsBytes(ty types.Type) bool {
 
 // Lean type of a Go type, "" when unsupported
 func (t *lpTr) leanTy(ty types.Type) string {
-	if t.extTy != nil {
-		if s := t.extTy(ty); s != "" {
+	if t.dnsTy != nil {
+		if s := t.dnsTy(ty); s != "" {
 			return s
 		}
 	}
@@ -173,6 +178,9 @@ func (t *lpTr) leanTy(ty types.Type) string {
 		case types.Bool, types.UntypedBool:
 			return "Bool"
 		}
+	}
+	if t.g.ext != nil {
+		return t.extLeanTy(ty)
 	}
 	return ""
 }
@@ -244,9 +252,11 @@ func (t *lpTr) rootVar(e ast.Expr) *types.Var {
 		return t.rootVar(x.X)
 	case *ast.SelectorExpr:
 		return t.rootVar(x.X)
+	case *ast.StarExpr:
+		return t.rootVar(x.X)
 	}
-	if t.extRoot != nil {
-		return t.extRoot(e)
+	if t.dnsRoot != nil {
+		return t.dnsRoot(e)
 	}
 	return nil
 }
@@ -281,8 +291,8 @@ func (t *lpTr) assigned(n ast.Node) map[*types.Var]bool {
 				res[v] = true
 			}
 		case *ast.CallExpr:
-			if t.extCallAssigns != nil {
-				t.extCallAssigns(s, res)
+			if t.dnsCallAssigns != nil {
+				t.dnsCallAssigns(s, res)
 			}
 			if t.isCopy(s) && len(s.Args) == 2 {
 				if v := t.rootVar(s.Args[0]); v != nil {
@@ -292,6 +302,11 @@ func (t *lpTr) assigned(n ast.Node) map[*types.Var]bool {
 				if v := t.varOf(sel.X); v != nil && t.isLine(v.Type()) {
 					res[v] = true
 				}
+				if t.g.ext != nil {
+					t.extAssignedCall(s, res)
+				}
+			} else if t.g.ext != nil {
+				t.extAssignedCall(s, res)
 			}
 		}
 		return true
@@ -369,6 +384,9 @@ func (t *lpTr) checkShadow() {
 	})
 	for _, a := range vars {
 		for _, b := range vars {
+			if t.g.ext != nil && t.extShadowOK(b) {
+				continue // ext: the `err` of `if err := f(); err != nil` is never bound in the Lean text (forms A / B of loops_structs.go)
+			}
 			if a != b && a.Name() == b.Name() && a.Name() != "_" {
 				sa := a.Parent()
 				if sa != nil && sa.Contains(b.Pos()) && b.Pos() > a.Pos() {
@@ -434,8 +452,13 @@ func (t *lpTr) lineField(sel *ast.SelectorExpr) (string, bool) {
 // a byte-sequence valued expression that can be read (Lean term of type Bytes)
 func (t *lpTr) bytesExpr(e ast.Expr, b *lpBinds) string {
 	e = paren(e)
-	if t.extExpr != nil {
-		if s, ok := t.extExpr(e, b); ok {
+	if t.dnsExpr != nil {
+		if s, ok := t.dnsExpr(e, b); ok {
+			return s
+		}
+	}
+	if t.g.ext != nil {
+		if s, ok := t.extBytesExpr(e, b); ok {
 			return s
 		}
 	}
@@ -584,7 +607,12 @@ var lpArith = map[token.Token]string{token.ADD: "+", token.SUB: "-", token.MUL: 
 // a value expression (integers, bools as Bool terms, byte slices)
 func (t *lpTr) expr(e ast.Expr, b *lpBinds) string {
 	e = paren(e)
-	if t.extExpr != nil {
+	if t.dnsExpr != nil {
+		if s, ok := t.dnsExpr(e, b); ok {
+			return s
+		}
+	}
+	if t.g.ext != nil {
 		if s, ok := t.extExpr(e, b); ok {
 			return s
 		}
@@ -754,6 +782,9 @@ func (t *lpTr) copyCall(c *ast.CallExpr, b *lpBinds) string {
 		t.refuse(c, "copy arity")
 	}
 	dst, ok := paren(c.Args[0]).(*ast.SliceExpr)
+	if id, isId := paren(c.Args[0]).(*ast.Ident); !ok && isId && t.g.ext != nil {
+		dst, ok = &ast.SliceExpr{X: id}, true // copy(x, src) is copy(x[0:len(x)], src)
+	}
 	if !ok || dst.Slice3 {
 		t.refuse(c, "copy destination must be X[lo:hi]")
 	}
@@ -823,6 +854,9 @@ func (t *lpTr) call(c *ast.CallExpr, b *lpBinds, want bool) string {
 		callee, _ = t.info.Uses[f.Sel].(*types.Func)
 		if callee != nil && callee.Type().(*types.Signature).Recv() != nil {
 			v := t.varOf(f.X)
+			if t.g.ext != nil && (v == nil || !t.isLine(v.Type())) {
+				return t.extMethodCall(c, f, callee, b, want)
+			}
 			if v == nil || !t.isLine(v.Type()) {
 				t.refuse(c, "method call on %s (only methods of the *Line receiver variable are supported)", nodeText(f.X))
 			}
@@ -870,7 +904,12 @@ func (t *lpTr) argExpr(a ast.Expr, b *lpBinds) string {
 
 func (t *lpTr) cond(e ast.Expr, b *lpBinds) string {
 	e = paren(e)
-	if t.extCond != nil {
+	if t.dnsCond != nil {
+		if s, ok := t.dnsCond(e, b); ok {
+			return s
+		}
+	}
+	if t.g.ext != nil {
 		if s, ok := t.extCond(e, b); ok {
 			return s
 		}
@@ -969,6 +1008,9 @@ func lpNames(vs []*types.Var) []string {
 
 // simple (non-control) statement → bind lines
 func (t *lpTr) simple(s ast.Stmt, b *lpBinds) {
+	if t.g.ext != nil && t.extSimple(s, b) {
+		return
+	}
 	switch x := s.(type) {
 	case nil:
 	case *ast.EmptyStmt:
@@ -1147,6 +1189,11 @@ func (t *lpTr) block(stmts []ast.Stmt, ind int, j *lpJump, k lpKont) []string {
 	case *ast.BlockStmt:
 		return t.block(append(append([]ast.Stmt{}, x.List...), rest...), ind, j, k)
 	case *ast.ReturnStmt:
+		if t.g.ext != nil {
+			if ls, ok := t.extReturn(x, ind, j); ok {
+				return ls
+			}
+		}
 		if j.ret == nil {
 			t.refuse(s, "return inside a loop")
 		}
@@ -1200,6 +1247,11 @@ func (t *lpTr) block(stmts []ast.Stmt, ind int, j *lpJump, k lpKont) []string {
 		}
 		return append(lines, restK(ind)...)
 	}
+	if t.g.ext != nil {
+		if ls, ok := t.extStmt(s, rest, ind, j, k); ok {
+			return ls
+		}
+	}
 	var b lpBinds
 	t.simple(s, &b)
 	lines = lpPut(lines, ind, &b)
@@ -1220,6 +1272,11 @@ func lpElse(x *ast.IfStmt) []ast.Stmt {
 func (t *lpTr) ifStmt(x *ast.IfStmt, rest []ast.Stmt, ind int, j *lpJump, k lpKont) []string {
 	var lines []string
 	els := lpElse(x)
+	if t.g.ext != nil {
+		if ls, ok := t.extIf(x, rest, ind, j, k); ok {
+			return ls
+		}
+	}
 	if !hasJump(x) {
 		// jump-free: the variables declared outside and assigned inside are returned as a tuple
 		as := t.assigned(x)
@@ -1386,6 +1443,11 @@ func (t *lpTr) forStmt(x *ast.ForStmt, ind int, j *lpJump) []string {
 
 // termination measure of a `for` loop (see the header); refuses when none is recognised
 func (t *lpTr) fuelOf(x *ast.ForStmt) string {
+	if t.g.ext != nil {
+		if f, ok := t.extFuel(x); ok {
+			return f
+		}
+	}
 	be, ok := paren(x.Cond).(*ast.BinaryExpr)
 	if !ok {
 		t.refuse(x, "no termination measure: condition %s", nodeText(x.Cond))
@@ -1687,6 +1749,8 @@ func (g *lpGen) translate(f *types.Func) (res *lpFunc, why string) {
 			if as[v] && t.writtenInPlace(fd.Body, v) {
 				fn.mutated = append(fn.mutated, v)
 			}
+		} else if t.g.ext != nil && t.extParamMutated(fd.Body, v, as) {
+			fn.mutated = append(fn.mutated, v)
 		}
 	}
 	var resTys []string
@@ -1701,10 +1765,18 @@ func (g *lpGen) translate(f *types.Func) (res *lpFunc, why string) {
 		for _, v := range fn.mutated {
 			resTys = append(resTys, t.leanTy(v.Type()))
 		}
-		if sig.Results().Len() > 1 {
+		nres := sig.Results().Len()
+		if t.g.ext != nil && nres > 0 && isErrorType(sig.Results().At(nres-1).Type()) {
+			if sig.Results().At(nres-1).Name() != "" {
+				t.refuse(fd, "named result")
+			}
+			fn.errRes = true
+			nres--
+		}
+		if nres > 1 {
 			t.refuse(fd, "multiple results")
 		}
-		if sig.Results().Len() == 1 {
+		if nres == 1 {
 			if sig.Results().At(0).Name() != "" {
 				t.refuse(fd, "named result")
 			}
@@ -1744,6 +1816,9 @@ func (g *lpGen) translate(f *types.Func) (res *lpFunc, why string) {
 		return ret("", ind)
 	}
 	body := t.block(fd.Body.List, 2, &lpJump{ret: ret}, end)
+	if t.g.ext != nil {
+		body = t.extFinish(fn, body)
+	}
 	pos := p.Fset.Position(fd.Pos())
 	var sb strings.Builder
 	for _, l := range t.loops {
